@@ -182,7 +182,7 @@ class Ctx:
                 lock.close()
         return path
 
-    def prove(self, targets=None, timeout=1500):
+    def prove(self, extra=(), timeout=1500):
         """Builds props/<prop>.vo with everything it depends on and re-checks the property file,
         collecting Print Assumptions. Returns True when every obligation is discharged."""
         prop = self.prop
@@ -199,7 +199,7 @@ class Ctx:
         try:
             if not os.path.exists(os.path.join(COQ, "Makefile")):
                 subprocess.run(["bash", os.path.join(VERIF, "setup.sh"), "--makefile-only"], check=True, cwd=VERIF)
-            cmd = ["timeout", str(timeout), "make", "-C", COQ, "-j", str(NPROC), f"props/{prop}.vo"]
+            cmd = ["timeout", str(timeout), "make", "-C", COQ, "-j", str(NPROC), f"props/{prop}.vo"] + [m + ".vo" for m in extra]
             p = subprocess.run(cmd, capture_output=True, text=True)
         finally:
             lock.close()
